@@ -55,7 +55,8 @@ theorem keep_inA {p : Par} {s : State} {t0 : Nat} {frs : List Frm} {gab grest : 
     obtain ⟨_, _, e3, e4, e5⟩ := h.fba (t0, frs) (List.mem_cons_self ..) fr hfr
     have := h.ord.2
     exact ⟨e3, by omega, e5⟩
-  obtain ⟨c, su, pr, rw, hk, hge, hpn, hrt⟩ := inFrs_ackLike p.base frs { k := s.A } h.asort h.abnd
+  obtain ⟨c, su, pr, rw, hk, hge, hpn, hrt⟩ := inFrs_ackLike p.base frs { k := s.A }
+    (fun x hx => (h.aseg x hx).1) h.asort h.abnd
     (by show o p.base s.A.snd_nxt < 2 ^ 31; omega) hal rfl
   have hk1s : k1.snd_buf = s.A.snd_buf.drop c ∧ k1.snd_nxt = s.A.snd_nxt := by
     rcases hk1 with rfl | ⟨rtt, rfl⟩
